@@ -9,10 +9,12 @@
         pure function (`gtrace`) of the rules' static data
      4. the trigger-only second loops (heap pops, Proportional)
      5. pure traces = documented selections
-     6. sorting: extract-min order = sorted arrangement (under the order laws `PosOrder`, which hold in R)
-     7. the theorems per method, flags, degrees, frame, vectors *)
-From Coq Require Import ZArith Bool List Lia Arith Sorting.Sorted Sorting.Permutation Reals Lra.
-From VF Require Import Num NumR Core Activation Selection.
+     6. sorting: extract-min order = sorted arrangement (under the order laws `PosOrder`)
+     7. the theorems per method, flags, degrees, frame, vectors
+     8. the reals: PosOrder, Proportional sums to one      9. examples over R
+     10. PosOrder for binary64, from the specification axioms of Coq's primitive floats (FloatAxioms) *)
+From Coq Require Import ZArith Bool List Lia Arith Sorting.Sorted Sorting.Permutation Reals Lra Floats.
+From VF Require Import Num NumR NumF Core Activation Selection.
 Import ListNotations.
 Set Implicit Arguments.
 
@@ -1576,3 +1578,95 @@ Section ExamplesR.
     destruct (Highest_good NumR_PosOrder 3 block_R_scalar) as (s' & GR). rewrite (run_selects GR). apply sel_R_highest.
   Qed.
 End ExamplesR.
+(* ------------------------------------------------------------------------------------------ *)
+(* 10. the order laws hold for binary64 (from the specification axioms of Coq's primitive floats) *)
+(* ------------------------------------------------------------------------------------------ *)
+Section FloatOrder.
+  Local Open Scope Z_scope.
+  (* a non-NaN value as a triple of integers ordered lexicographically *)
+  Definition rk (x : spec_float) : option (Z * Z * Z) :=
+    match x with
+    | S754_nan => None
+    | S754_infinity true => Some (-2, 0, 0)
+    | S754_infinity false => Some (2, 0, 0)
+    | S754_zero _ => Some (0, 0, 0)
+    | S754_finite true m e => Some (-1, - e, Zneg m)
+    | S754_finite false m e => Some (1, e, Zpos m)
+    end.
+  Definition lex3 (p q : Z * Z * Z) : comparison :=
+    let '(a1, b1, c1) := p in let '(a2, b2, c2) := q in
+    match a1 ?= a2 with Eq => match b1 ?= b2 with Eq => c1 ?= c2 | c => c end | c => c end.
+  Definition ocmp (p q : option (Z * Z * Z)) : option comparison :=
+    match p, q with Some p, Some q => Some (lex3 p q) | _, _ => None end.
+
+  Lemma SFcompare_rk x y : SFcompare x y = ocmp (rk x) (rk y).
+  Proof.
+    destruct x as [sx|sx| |sx mx ex], y as [sy|sy| |sy my ey]; try destruct sx; try destruct sy; cbn; try reflexivity.
+    rewrite Z.compare_opp, (Z.compare_antisym ex ey). destruct (ex ?= ey); cbn; reflexivity.
+  Qed.
+  Definition neg3 (p : Z * Z * Z) : Z * Z * Z := let '(a, b, c) := p in (- a, - b, - c).
+  Lemma rk_opp x : rk (SFopp x) = option_map neg3 (rk x).
+  Proof. destruct x as [s|s| |s m e]; try destruct s; cbn; try reflexivity. now rewrite Z.opp_involutive. Qed.
+
+  Definition key (x : float) : option (Z * Z * Z) := rk (Prim2SF x).
+  Definition is_lt (c : option comparison) : bool := match c with Some Lt => true | _ => false end.
+  Definition is_eq (c : option comparison) : bool := match c with Some Eq => true | _ => false end.
+  Lemma ltb_key x y : PrimFloat.ltb x y = is_lt (ocmp (key x) (key y)).
+  Proof. rewrite ltb_spec. unfold SFltb, key. now rewrite SFcompare_rk. Qed.
+  Lemma eqb_key x y : PrimFloat.eqb x y = is_eq (ocmp (key x) (key y)).
+  Proof. rewrite eqb_spec. unfold SFeqb, key. now rewrite SFcompare_rk. Qed.
+  Lemma key_opp x : key (- x)%float = option_map neg3 (key x).
+  Proof. unfold key. now rewrite opp_spec, rk_opp. Qed.
+
+  Lemma is_lt_iff a1 b1 c1 a2 b2 c2 :
+    is_lt (Some (lex3 (a1, b1, c1) (a2, b2, c2))) = true <->
+    (a1 < a2 \/ (a1 = a2 /\ (b1 < b2 \/ (b1 = b2 /\ c1 < c2)))).
+  Proof.
+    unfold lex3, is_lt.
+    destruct (Z.compare_spec a1 a2), (Z.compare_spec b1 b2), (Z.compare_spec c1 c2);
+      split; intros; try discriminate; try reflexivity; try lia.
+  Qed.
+  Lemma is_eq_iff a1 b1 c1 a2 b2 c2 :
+    is_eq (Some (lex3 (a1, b1, c1) (a2, b2, c2))) = true <-> (a1 = a2 /\ b1 = b2 /\ c1 = c2).
+  Proof.
+    unfold lex3, is_eq.
+    destruct (Z.compare_spec a1 a2), (Z.compare_spec b1 b2), (Z.compare_spec c1 c2);
+      split; intros; try discriminate; try reflexivity; try lia.
+  Qed.
+
+  Ltac prep := intros; rewrite ?ltb_key, ?eqb_key, ?key_opp in *;
+    repeat match goal with
+    | H : context [key ?x] |- _ => let k := fresh "k" in let E := fresh "E" in remember (key x) as k eqn:E; clear E
+    | |- context [key ?x] => let k := fresh "k" in let E := fresh "E" in remember (key x) as k eqn:E; clear E
+    end;
+    repeat match goal with k : option (Z * Z * Z) |- _ => destruct k as [[[? ?] ?]|] end;
+    cbn [ocmp option_map neg3] in *; try reflexivity; try (exfalso; cbn in *; discriminate).
+  Ltac props := repeat match goal with
+    | H : ?b = false |- _ => apply not_true_iff_false in H
+    | H : context [is_lt (Some (lex3 _ _)) = true] |- _ => rewrite is_lt_iff in H
+    | H : context [is_eq (Some (lex3 _ _)) = true] |- _ => rewrite is_eq_iff in H
+    end;
+    try match goal with
+    | |- _ = false => apply not_true_iff_false
+    | |- _ = true => idtac
+    | |- _ = _ => apply eq_iff_eq_true
+    end; rewrite ?is_lt_iff, ?is_eq_iff.
+
+  Lemma NumF_PosOrder sm tbl : PosOrder (NumF sm tbl).
+  Proof.
+    assert (Z0 : key (@zero float (NumF sm tbl)) = Some (0, 0, 0)) by (vm_compute; reflexivity).
+    constructor; cbn [ltb eqb neg NumF].
+    - intros a H. rewrite ltb_key, Z0 in H. rewrite eqb_key. destruct (key a) as [[[? ?] ?]|]; cbn [ocmp] in *; [|discriminate].
+      props. lia.
+    - prep; props; lia.
+    - prep; props; lia.
+    - prep; props; lia.
+    - prep; props; lia.
+    - prep; props; lia.
+    - prep; props; lia.
+    - prep; props; lia.
+    - prep; props; lia.
+    - prep; props; lia.
+    - prep; props; lia.
+  Qed.
+End FloatOrder.
